@@ -11,7 +11,16 @@ for n in (2, 3):
     HARNESSES['c02_log_n%d' % n] = dict(src='c02_multi_log.cc', defines=['NCHILD=%d' % n, 'OTEL_INTERNAL_LOG_LEVEL=0'], models=['libc.c', 'cxxrt.c', 'stdstring.c', 'single_threaded.c', 'sched.c', 'pthread_clock.c', 'rbtree.c'], ir2c_flags=['--new-array-max', '64'], model_defines=['VERIF_NEW_ARRAY_MAX=64'])
     QUERIES.append(dict(name='multi_log_processor_aggregate_n%d' % n, harness='c02_log_n%d' % n, entry='h_multi_log_aggregate', unwind=6, unwindset={'verif_mem': 70}, timeout=600, tier='quick' if n == 2 else 'thorough',
                         shape='MultiLogRecordProcessor with %d children: symbolic ForceFlush/Shutdown results, symbolic timeout (or unlimited), arbitrary non-decreasing clock' % n))
-BOUNDS = ['MultiSpanProcessor with 1..3 children (quick: 2 and 3) and MultiLogRecordProcessor with 2..3 children (quick: 2); one ForceFlush and one Shutdown; timeouts < 2^62 us or unlimited']
-OUTSIDE = ['BatchSpanProcessor / BatchLogRecordProcessor ForceFlush and Shutdown themselves (ticket protocol, drain, join): the object-level encoding of the batch processors (std::vector<unique_ptr>, make_shared control block, condition variables, worker hand-off) ran out of memory (12-24 GB) in CBMC even for queue size 1 - measured, see DESIGN.md 6; this clause of C02 is therefore NOT decided',
+from batch_common import *
+for logs in (False, True):
+    # export cycle with an outstanding ticket and interference (ticket protocol), ForceFlush caller, Shutdown caller
+    for (q, b, k, t, i, tier) in ((4, 2, 3, 2, 0, 'quick'), (4, 2, 2, 2, 3, 'quick'), (4, 2, 2, 2, 5, 'thorough'), (4, 2, 3, 1, 4, 'thorough'), (2, 1, 2, 2, 2, 'thorough')):
+        add_query(HARNESSES, QUERIES, logs, q, b, k, t, i, 'h_export_cycle', 'flush_ticket_cycle', tier if not logs or i == 3 else 'thorough')
+    for (q, b, k, tier) in ((4, 2, 3, 'quick'), (2, 1, 2, 'thorough'), (4, 2, 0, 'thorough'), (4, 4, 4, 'thorough')):
+        for (w, to) in ((1, 1), (1, 0), (1, 2), (0, 1)):
+            add_ff_query(HARNESSES, QUERIES, logs, q, b, k, w, to, tier if (not logs and (w, to) in ((1, 1), (0, 1))) else 'thorough')
+        add_query(HARNESSES, QUERIES, logs, q, b, k, 0, 0, 'h_shutdown', 'shutdown_call', tier)
+BOUNDS = ['batch processors (span and log): max_queue_size 2..4, max_export_batch_size 1..4, 0..4 records, concrete shape per query; ForceFlush with timeout in {0 (=unlimited), 1000 us, max}; condition waits may time out or not', 'MultiSpanProcessor with 1..3 children (quick: 2 and 3) and MultiLogRecordProcessor with 2..3 children (quick: 2); one ForceFlush and one Shutdown; timeouts < 2^62 us or unlimited']
+OUTSIDE = ['real interleavings of ForceFlush / Shutdown callers with the worker: the worker is sequentialised (its Export / DrainQueue steps run where the caller blocks or are called directly; concurrent producers and ForceFlush tickets act at the points where the worker is inside the exporter); two Shutdown calls racing each other',
            'periodic metric reader, TracerProvider/LoggerProvider/MeterProvider forwarding', 'termination (liveness)']
-ASSUMPTIONS = ['operator new never fails']
+ASSUMPTIONS = ['operator new never fails'] + BATCH_ASSUMPTIONS
